@@ -346,7 +346,7 @@ def run_shard(ctx):
                    {"model": p.model, "text": p.text, "overrides": specs,
                     "family": "override"}, cls, e)
     dschema = cc.load_schema(c06.DEFINE_SCHEMA)
-    d = os.path.join(ctx.tmp, "c07")
+    d = os.path.join(ctx.tmp, "c07 incl é%41+x")
     # every hostile argument on its own, at top level and inside a section
     for hi, h in enumerate(HOSTILE):
         if ctx.mine(hi):
